@@ -27,6 +27,16 @@ def run(R, tier, seed, driver_ok):
               'a case = (estimator, stream, pair); non-trivial = the two points differ; distinct by hash of (label, L, pair)')
     R.assumptions = ['rounding is outside the model; views are compared with tolerance 1e-9·‖L‖·(‖x‖+‖x\'‖)']
     pop = zoo.population(rng, reps=reps)
+    # learners whose transformation has special structure (exactly diagonal, a single feature): shortcuts taken for such
+    # structure must still denote X ↦ X Lᵀ in every view and for every accepted container
+    for nm_, kw in [('MMC', dict(params=dict(diagonal=True))), ('MMC_Supervised', dict(params=dict(diagonal=True))), ('NCA', dict(d=1)), ('Covariance', dict(d=1)),
+                    ('ITML', dict(params=dict(max_iter=0))), ('LSML', dict(params=dict(max_iter=0)))]:
+        try:
+            est_, X_, y_, _ = zoo.fitted(nm_, rng, **kw)
+        except Exception as e:
+            R.count(f'structured-learner {nm_} not fitted ({type(e).__name__})')
+            continue
+        pop.append((f'{nm_}[{kw}]', est_, X_, y_))
     # preprocessor variants: indices into a pool that also holds the query points
     lines, meta = [], []
     for label, est, X, y in pop:
@@ -95,6 +105,17 @@ def run(R, tier, seed, driver_ok):
                 tv = est.transform(V[:, 0] if not isinstance(V, list) else [p[0] for p in V])
                 if amax(tv - T0) > 1e-12 * (normL * amax(P) + 1e-300):
                     R.violation(f'arraylike-transform-{vn}', f'{label}: transform differs for {vn} input', {'est': label, 'L': L, 'pairs': P})
+            # scipy.sparse containers of the same numbers (transform documents accept_sparse)
+            import scipy.sparse as sps
+            for sn, mk in (('csr_matrix', sps.csr_matrix), ('csc_matrix', sps.csc_matrix), ('csr_array', sps.csr_array)):
+                try:
+                    ts = est.transform(mk(P[:, 0]))
+                except (TypeError, ValueError):
+                    R.count(f'sparse {sn}: transform refuses'); continue
+                ts = np.asarray(ts.todense() if hasattr(ts, 'todense') else ts)
+                R.count(f'sparse {sn}: transform accepts')
+                if ts.shape != T0.shape or amax(ts - T0) > 1e-12 * (normL * amax(P) + 1e-300):
+                    R.violation(f'arraylike-transform-{sn}', f'{label}: transform of a scipy.sparse {sn} has shape {ts.shape} / differs from the dense X Lᵀ {T0.shape}', {'est': label, 'L': L, 'pairs': P})
             single = np.array([est.pair_distance(P[i:i + 1])[0] for i in range(len(P))])
             for i in range(len(P)):
                 x0, x1 = P[i, 0], P[i, 1]
